@@ -106,12 +106,18 @@ theorem taiko_optimal (S acc : K) (h0 : 0 ≤ acc) (h1 : acc ≤ 1) (hS : 1 < S)
 
 /-! ## catch -/
 
-/-- Accuracy given, tiny droplets and tiny droplet misses open: the two sum to `n_tiny_droplets`,
-the search adds no failing check, `fruits + droplets + misses = n_fruits + n_droplets`, and no
-`t ≤ n_tiny_droplets` is strictly closer to the target accuracy. -/
-theorem catch_tiny_optimal (S acc : K) (h0 : 0 ≤ acc) (h1 : acc ≤ 1) (hS : 1 < S) (c : CatchCfg)
-    (b : CatchB K) (hacc : b.acc = some acc) (ht : b.tiny = none) (htm : b.tinyMisses = none)
-    (hsmall : c.nTiny ≤ u32Max) (hfd : c.nFruits + c.nDroplets ≤ u32Max) :
+/-- Whenever `catchTiny` runs `find_best_tiny_droplets` (hypothesis `hH`): the two tiny counts
+sum to `n_tiny_droplets`, the search adds no failing check,
+`fruits + droplets + misses = n_fruits + n_droplets`, and no `t ≤ n_tiny_droplets` is strictly
+closer to the target accuracy. -/
+theorem catch_tiny_search_optimal (S acc : K) (h0 : 0 ≤ acc) (h1 : acc ≤ 1) (hS : 1 < S) (c : CatchCfg)
+    (b : CatchB K) (hsmall : c.nTiny ≤ u32Max) (hfd : c.nFruits + c.nDroplets ≤ u32Max)
+    (hH : ∀ fruits droplets misses,
+      @catchTiny K (fieldOps S) b c.nFruits c.nDroplets c.nTiny fruits droplets misses
+        = ((@catchFindTiny K (fieldOps S) acc c.nFruits c.nDroplets c.nTiny fruits droplets misses).val.1,
+           (@catchFindTiny K (fieldOps S) acc c.nFruits c.nDroplets c.nTiny fruits droplets misses).val.2,
+           (@catchFindTiny K (fieldOps S) acc c.nFruits c.nDroplets c.nTiny fruits droplets misses).hit,
+           (@catchFindTiny K (fieldOps S) acc c.nFruits c.nDroplets c.nTiny fruits droplets misses).ok)) :
     let o := @catchGenRaw K (fieldOps S) c b
     let s := o.state
     o.accepted = true ∧
@@ -128,8 +134,7 @@ theorem catch_tiny_optimal (S acc : K) (h0 : 0 ≤ acc) (h1 : acc ≤ 1) (hS : 1
   have hinv := catchFruitsDroplets_sum c.nFruits c.nDroplets s.misses b.fruits b.droplets
     (by rw [emis]; exact hm) hfd
   have hinv' : s.fruits + s.droplets + s.misses = c.nFruits + c.nDroplets := hinv
-  have hH := catchTiny_search S acc b c.nFruits c.nDroplets c.nTiny s.fruits s.droplets s.misses
-    hacc ht htm
+  have hH := hH s.fruits s.droplets s.misses
   obtain ⟨k1, k2, k3, k4⟩ := catchFindTiny_spec S acc h0 h1 hS c.nFruits c.nDroplets c.nTiny
     s.fruits s.droplets s.misses hinv' hsmall
   have et : s.tiny = (@catchFindTiny K (fieldOps S) acc c.nFruits c.nDroplets c.nTiny s.fruits
@@ -150,6 +155,47 @@ theorem catch_tiny_optimal (S acc : K) (h0 : 0 ≤ acc) (h1 : acc ≤ 1) (hS : 1
   · intro t htT
     rw [et, etm]
     exact k4 t htT
+
+/-- Accuracy given, tiny droplets and tiny droplet misses open: the two sum to `n_tiny_droplets`,
+the search adds no failing check, `fruits + droplets + misses = n_fruits + n_droplets`, and no
+`t ≤ n_tiny_droplets` is strictly closer to the target accuracy. -/
+theorem catch_tiny_optimal (S acc : K) (h0 : 0 ≤ acc) (h1 : acc ≤ 1) (hS : 1 < S) (c : CatchCfg)
+    (b : CatchB K) (hacc : b.acc = some acc) (ht : b.tiny = none) (htm : b.tinyMisses = none)
+    (hsmall : c.nTiny ≤ u32Max) (hfd : c.nFruits + c.nDroplets ≤ u32Max) :
+    let o := @catchGenRaw K (fieldOps S) c b
+    let s := o.state
+    o.accepted = true ∧
+      o.ok = (catchFruitsDroplets c.nFruits c.nDroplets s.misses b.fruits b.droplets).2.2 ∧
+      s.misses = optMin b.misses (c.nFruits + c.nDroplets) ∧
+      s.fruits + s.droplets + s.misses = c.nFruits + c.nDroplets ∧
+      s.tiny + s.tinyMisses = c.nTiny ∧
+      ∀ t ≤ c.nTiny,
+        |acc - @catchAcc K (fieldOps S) s.fruits s.droplets s.tiny s.tinyMisses s.misses|
+          ≤ |acc - @catchAcc K (fieldOps S) s.fruits s.droplets t (c.nTiny - t) s.misses| :=
+  catch_tiny_search_optimal S acc h0 h1 hS c b hsmall hfd
+    (fun f d m => catchTiny_search S acc b c.nFruits c.nDroplets c.nTiny f d m hacc ht htm)
+
+/-- Accuracy given and an *inconsistent* pair `(tiny_droplets, tiny_droplet_misses)` provided
+(their saturating sum differs from `n_tiny_droplets`): the pair is discarded and replaced by the
+optimal split, exactly as if none had been provided. -/
+theorem catch_tiny_inconsistent_pair_optimal (S acc : K) (h0 : 0 ≤ acc) (h1 : acc ≤ 1) (hS : 1 < S)
+    (c : CatchCfg) (b : CatchB K) (hacc : b.acc = some acc) (t tm : Nat) (ht : b.tiny = some t)
+    (htm : b.tinyMisses = some tm) (hne : satAdd t tm ≠ c.nTiny)
+    (hsmall : c.nTiny ≤ u32Max) (hfd : c.nFruits + c.nDroplets ≤ u32Max) :
+    let o := @catchGenRaw K (fieldOps S) c b
+    let s := o.state
+    o.accepted = true ∧
+      o.ok = (catchFruitsDroplets c.nFruits c.nDroplets s.misses b.fruits b.droplets).2.2 ∧
+      s.misses = optMin b.misses (c.nFruits + c.nDroplets) ∧
+      s.fruits + s.droplets + s.misses = c.nFruits + c.nDroplets ∧
+      s.tiny + s.tinyMisses = c.nTiny ∧
+      ∀ t' ≤ c.nTiny,
+        |acc - @catchAcc K (fieldOps S) s.fruits s.droplets s.tiny s.tinyMisses s.misses|
+          ≤ |acc - @catchAcc K (fieldOps S) s.fruits s.droplets t' (c.nTiny - t') s.misses| :=
+  catch_tiny_search_optimal S acc h0 h1 hS c b hsmall hfd (by
+    intro f d m
+    unfold catchTiny
+    simp only [hacc, ht, htm, if_neg hne])
 
 /-! ## osu!standard -/
 
@@ -457,6 +503,98 @@ theorem mania_none_given_optimal (S acc : K) (h0 : 0 ≤ acc) (h1 : acc ≤ 1) (
   exact s5 s (hsm.trans (g4.trans s3)) hst
 
 end C13
+
+/-! ## Inventory of arms: which arms are accuracy-driven at all
+
+Every arm of the four generators is one of
+* **search arm, proved optimal** — `taiko_optimal` (n300, n100 open), `catch_tiny_optimal` and
+  `catch_tiny_inconsistent_pair_optimal` (tiny droplets), `osu_none_given_optimal`,
+  `osu_n300_given_optimal`, `osu_n100_given_optimal`, `osu_n50_given_optimal` (all three score
+  origins, any slider-end / tick values), `mania_none_given_optimal` (classic and lazer);
+* **not accuracy-driven** — the generated state does not depend on the *value* of the accuracy
+  (theorems below: the remaining results are forced by the object count, or filled by priority);
+  catch fruits/droplets/misses/combo and the osu slider parts never read the accuracy;
+* **search arm, open** — mania with accuracy, at least one hit result provided and at least two
+  open (25 patterns × 2 weight systems): `mania_selected_is_best_of_window` holds, global optimality
+  among the completions of the provided results is measured by the harness only. These arms are
+  outside the property's quantifier ("no individual hit results"). -/
+
+/-- number of provided osu hit results -/
+def osuProvided {R : Type} (b : OsuB R) : Nat :=
+  (if b.n300.isSome then 1 else 0) + (if b.n100.isSome then 1 else 0) + (if b.n50.isSome then 1 else 0)
+
+/-- mania, at most one hit result open: the state does not depend on the accuracy's value -/
+theorem mania_acc_value_irrelevant {R : Type} [NumOps R] (c : ManiaCfg) (b : ManiaB R) (acc acc' : R)
+    (h : b.unknowns ≤ 1) :
+    maniaGenRaw c { b with acc := some acc } = maniaGenRaw c { b with acc := some acc' } := by
+  obtain ⟨a0, a1, a2, a3, a4, a5, a6⟩ := b
+  cases a1 <;> cases a2 <;> cases a3 <;> cases a4 <;> cases a5 <;>
+    first
+      | rfl
+      | (exfalso; simp [ManiaB.unknowns] at h)
+
+/-- osu, at least two of n300/n100/n50 provided: the state does not depend on the accuracy's value -/
+theorem osu_acc_value_irrelevant {R : Type} [NumOps R] (c : OsuCfg) (b : OsuB R) (acc acc' : R)
+    (h : 2 ≤ osuProvided b) :
+    osuGenRaw c { b with acc := some acc } = osuGenRaw c { b with acc := some acc' } := by
+  obtain ⟨a0, a1, a2, a3, a4, a5, a6, a7, a8⟩ := b
+  cases a5 <;> cases a6 <;> cases a7 <;>
+    first
+      | rfl
+      | (exfalso; simp [osuProvided] at h)
+
+/-- osu: combo, misses and the slider parts (slider ends, large and small ticks) never depend on
+the accuracy -/
+theorem osu_slider_parts_acc_free {R : Type} [NumOps R] (c : OsuCfg) (b : OsuB R) (a a' : Option R) :
+    let s := (osuGenRaw c { b with acc := a }).state
+    let s' := (osuGenRaw c { b with acc := a' }).state
+    s.maxCombo = s'.maxCombo ∧ s.misses = s'.misses ∧ s.sliderEndHits = s'.sliderEndHits ∧
+      s.largeTickHits = s'.largeTickHits ∧ s.smallTickHits = s'.smallTickHits :=
+  ⟨rfl, rfl, rfl, rfl, rfl⟩
+
+/-- taiko, n300 or n100 provided: the state does not depend on the accuracy's value -/
+theorem taiko_acc_value_irrelevant {R : Type} [NumOps R] (c : TaikoCfg) (b : TaikoB R) (acc acc' : R)
+    (h : b.n300.isSome ∨ b.n100.isSome) :
+    taikoGenRaw c { b with acc := some acc } = taikoGenRaw c { b with acc := some acc' } := by
+  obtain ⟨a0, a1, a2, a3, a4⟩ := b
+  cases a2 <;> cases a3 <;>
+    first
+      | rfl
+      | (exfalso; simp at h)
+
+/-- catch: fruits, droplets, misses and combo never depend on the accuracy (provided or not) -/
+theorem catch_fruits_droplets_acc_free {R : Type} [NumOps R] (c : CatchCfg) (b : CatchB R)
+    (a a' : Option R) :
+    let s := (catchGenRaw c { b with acc := a }).state
+    let s' := (catchGenRaw c { b with acc := a' }).state
+    s.fruits = s'.fruits ∧ s.droplets = s'.droplets ∧ s.misses = s'.misses ∧ s.maxCombo = s'.maxCombo :=
+  ⟨rfl, rfl, rfl, rfl⟩
+
+/-- catch, exactly one of the tiny counts provided, or a consistent pair: the state does not
+depend on the accuracy's value -/
+theorem catch_acc_value_irrelevant {R : Type} [NumOps R] (c : CatchCfg) (b : CatchB R) (acc acc' : R)
+    (h : (b.tiny.isSome ∧ b.tinyMisses.isNone) ∨ (b.tiny.isNone ∧ b.tinyMisses.isSome) ∨
+      (∃ t tm, b.tiny = some t ∧ b.tinyMisses = some tm ∧ satAdd t tm = c.nTiny)) :
+    catchGenRaw c { b with acc := some acc } = catchGenRaw c { b with acc := some acc' } := by
+  obtain ⟨a0, a1, a2, a3, a4, a5, a6⟩ := b
+  cases a4 <;> cases a5
+  · exfalso; simp at h
+  · rfl
+  · rfl
+  · rcases h with h | h | ⟨t, tm, ht, htm, hs⟩
+    · simp at h
+    · simp at h
+    · simp only [Option.some.injEq] at ht htm
+      subst ht htm
+      unfold catchGenRaw catchTiny
+      simp only [hs, if_true]
+
+/-- the number of mania search arms (accuracy given, at least two hit results open) among the 32
+provided-patterns is 26: one is `mania_none_given_optimal`, 25 are open -/
+theorem mania_search_arm_count :
+    ((List.range 32).filter fun bits =>
+      decide (2 ≤ (List.range 5).countP fun i => bits / 2 ^ i % 2 == 0)).length = 26 := by
+  decide
 
 /-! ## The executable exact instance
 
